@@ -197,8 +197,16 @@ def foreign(rng):
         seg = (0, 0, 0) if shape == 'udh-port-only' else (ref, sq, tot)
         return S.pdu(S.DELIVER_SM, 0, seq, body), 'gsm0338', {'short_message': 'ab', 'seg': seg}, shape
     # 8: every mandatory field non-default
-    body = S.sm_body('WAP', (5, 9, 'alpha'), (1, 1, '4477'), 0x04, 0x7F, 3, '', '240229235958739-', 17, 1, 3, 9, 'caf\xe9'.encode('latin-1'))
-    exp = {'service_type': 'WAP', 'short_message': 'café', 'esm_class': 4, 'protocol_id': 0x7F, 'priority_flag': 3,
+    from datetime import datetime, timedelta, timezone
+    nn, sign = rng.choice((39, 0, 1, 14, 22, 48, rng.randrange(49))), rng.choice('+-')
+    tenth = rng.randrange(10)
+    vp = '2402292359%02d%d%02d%s' % (58, tenth, nn, sign)
+    off = timedelta(minutes=15 * nn) * (1 if sign == '+' else -1)
+    sched = rng.choice(('', '000007000000000R'))
+    body = S.sm_body('WAP', (5, 9, 'alpha'), (1, 1, '4477'), 0x04, 0x7F, 3, sched, vp, 17, 1, 3, 9, 'caf\xe9'.encode('latin-1'))
+    exp = {'validity_period': datetime(2024, 2, 29, 23, 59, 58, tenth * 100000, tzinfo=timezone(off)),
+           'schedule_delivery_time': timedelta(days=7) if sched else None,
+           'service_type': 'WAP', 'short_message': 'café', 'esm_class': 4, 'protocol_id': 0x7F, 'priority_flag': 3,
            'registered_delivery': 17, 'replace_if_present_flag': 1, 'sm_default_msg_id': 9, 'encoding': 'latin_1',
            'src': (5, 9, 'alpha'), 'dst': (1, 1, '4477')}
     return S.pdu(S.SUBMIT_SM, 0, seq, body), 'gsm0338', exp, 'all-mandatory'
@@ -248,6 +256,9 @@ def dec_case(rng):
             elif k == 'command_status':
                 got = int(m.command_status)
                 ok = got == v
+            elif k == 'validity_period':
+                got = getattr(m, k)
+                ok = got == v and got.utcoffset() == v.utcoffset()      # the same instant, written with the same offset
             else:
                 got = getattr(m, k)
                 ok = got == v
